@@ -275,6 +275,74 @@ func runC03(c *ShardCtx) {
 		}
 	}
 	ruleB := func() *peg.Rule { return &peg.Rule{Name: "B", Display: "the B", Expr: peg.Lit("b")} }
+	// code block lexer family: EVERY block body made of <= K items (quick 3, thorough 4) from
+	// identifiers, blanks, newlines, string / raw string / rune literals holding braces, quotes,
+	// backslashes and comment openers, comments holding braces and quotes, and nested { } groups,
+	// used for the action of the first rule and the predicate of the second
+	{
+		k := 3
+		if c.Thorough() {
+			k = 4
+		}
+		for _, body := range codeBodies(k) {
+			if c.Expired("code block lexer family") {
+				return
+			}
+			body := body
+			g := &peg.Grammar{Rules: []*peg.Rule{{Name: "A", Expr: peg.Action(7, peg.Lit("a"))}, {Name: "B", Expr: peg.Seq(peg.AndCode(1), peg.Lit("b"))}}}
+			check(g, []deviation{{fmt.Sprintf("code body %q", body), func(o *peg.PrintOpts) { o.CodeBody = body }}}, 3)
+		}
+	}
+	// literal spelling family: every literal made of <= K pieces (quick 2, thorough 3) - plain
+	// runes, every single-character escape, octal / hex / short and long Unicode escapes - in the
+	// quotings that can express them, with and without the i suffix, followed by another token
+	{
+		k := 2
+		if c.Thorough() {
+			k = 3
+		}
+		for _, ls := range literalSpellings(k) {
+			if c.Expired("literal spelling family") {
+				return
+			}
+			for _, ic := range []bool{false, true} {
+				lit := peg.Lit(ls.val)
+				lit.Src = ls.src
+				lit.IgnoreCase = ic
+				if ic {
+					lit.Src += "i"
+				}
+				g := &peg.Grammar{Rules: []*peg.Rule{{Name: "A", Expr: peg.Seq(lit, peg.Lit("z"))}, ruleB()}}
+				check(g, []deviation{{fmt.Sprintf("literal %s", lit.Src), func(o *peg.PrintOpts) {}}}, 3)
+			}
+		}
+	}
+	// class spelling family: every class text of <= K pieces (quick 3, thorough 4) from plain
+	// runes, '-', '^', escapes of every form (incl. an ESCAPED hyphen and caret) and Unicode
+	// classes, with and without i; denotation: the grammar's own tokenisation (a range is
+	// ClassChar '-' ClassChar with a literal hyphen, tried first at every position)
+	{
+		k := 3
+		if c.Thorough() {
+			k = 4
+		}
+		for _, cs := range classSpellings(k) {
+			if c.Expired("class spelling family") {
+				return
+			}
+			if !cs.ok {
+				continue
+			}
+			for _, ic := range []bool{false, true} {
+				e := &peg.Expr{K: peg.KClass, Class: &peg.Class{Items: cs.items, Inverted: cs.inverted, IgnoreCase: ic}, Src: cs.src}
+				if ic {
+					e.Src += "i"
+				}
+				g := &peg.Grammar{Rules: []*peg.Rule{{Name: "A", Expr: peg.Seq(e, peg.Lit("z"))}, ruleB()}}
+				check(g, []deviation{{fmt.Sprintf("class %s", e.Src), func(o *peg.PrintOpts) {}}}, 3)
+			}
+		}
+	}
 	for size := 1; size <= n; size++ {
 		for _, body := range en.Size(size) {
 			if c.Expired("AST size " + itoa(size)) {
@@ -323,4 +391,142 @@ func runC03(c *ShardCtx) {
 			}
 		}
 	}
+}
+
+// codeBodies enumerates block texts "{...}" of at most k items.
+func codeBodies(k int) []string {
+	atoms := []string{"x", " ", "\n", `"a"`, `"\\"`, `"\""`, `"{"`, `"}"`, `"'"`, `"//"`, `"/*"`, "`{`", "`}`", "`\\`", "`\"`", "`'\n`",
+		`'{'`, `'}'`, `'\''`, `'\\'`, `'"'`, "// }\n", "// \"\n", "// {'\n", "/* } */", "/* \" */", "/* ' { */", "/*\n}*/"}
+	var seqs func(n int) []string
+	memo := map[int][]string{}
+	seqs = func(n int) []string {
+		if n == 0 {
+			return []string{""}
+		}
+		if r, ok := memo[n]; ok {
+			return r
+		}
+		var out []string
+		for _, a := range atoms {
+			for _, rest := range seqs(n - 1) {
+				out = append(out, a+rest)
+			}
+		}
+		// a nested group counts as one item plus its content
+		for in := 0; in <= n-1; in++ {
+			for _, inner := range seqs(in) {
+				for _, rest := range seqs(n - 1 - in) {
+					out = append(out, "{"+inner+"}"+rest)
+				}
+			}
+		}
+		memo[n] = out
+		return out
+	}
+	var out []string
+	for n := 0; n <= k; n++ {
+		for _, s := range seqs(n) {
+			out = append(out, "{"+s+"}")
+		}
+	}
+	return out
+}
+
+type litSpelling struct{ src, val string }
+
+// literalSpellings enumerates literal spellings of at most k pieces with the
+// value each denotes (Go string literal semantics, piece by piece).
+func literalSpellings(k int) []litSpelling {
+	type piece struct{ src, val string }
+	plain := []piece{{"a", "a"}, {"é", "é"}, {"\U0001F600"[0:0] + "😀", "😀"}, {" ", " "}, {"{", "{"}, {"]", "]"}, {"/", "/"}, {"i", "i"}}
+	esc := []piece{{`\a`, "\a"}, {`\b`, "\b"}, {`\n`, "\n"}, {`\f`, "\f"}, {`\r`, "\r"}, {`\t`, "\t"}, {`\v`, "\v"}, {`\\`, "\\"},
+		{`\101`, "A"}, {`\000`, "\x00"}, {`\x41`, "A"}, {`\x7F`, "\x7f"}, {`\u00e9`, "é"}, {`\u00E9`, "é"}, {`\U0001F600`, "😀"}, {`\uFFFD`, "\uFFFD"}}
+	var out []litSpelling
+	build := func(quote string, pieces []piece) {
+		var rec func(n int, src, val string)
+		rec = func(n int, src, val string) {
+			out = append(out, litSpelling{quote + src + quote, val})
+			if n == k {
+				return
+			}
+			for _, p := range pieces {
+				rec(n+1, src+p.src, val+p.val)
+			}
+		}
+		rec(0, "", "")
+	}
+	dq := append(append([]piece{}, plain...), esc...)
+	dq = append(dq, piece{`\"`, `"`}, piece{"'", "'"}, piece{"`", "`"})
+	build(`"`, dq)
+	raw := append(append([]piece{}, plain...), piece{`\`, `\`}, piece{`\n`, `\n`}, piece{`"`, `"`}, piece{"'", "'"}, piece{"\n", "\n"})
+	build("`", raw)
+	// single quotes hold exactly one character
+	sq := append(append([]piece{}, plain...), esc...)
+	sq = append(sq, piece{`\'`, "'"}, piece{`"`, `"`}, piece{"`", "`"})
+	for _, p := range sq {
+		out = append(out, litSpelling{"'" + p.src + "'", p.val})
+	}
+	return out
+}
+
+type classSpelling struct {
+	src      string
+	items    []peg.ClassItem
+	inverted bool
+	ok       bool // false: the text contains a descending range (outside the documented syntax)
+}
+
+// classSpellings enumerates class texts "[...]" of at most k pieces together
+// with the class each denotes.
+func classSpellings(k int) []classSpelling {
+	type piece struct {
+		src   string
+		r     rune   // char pieces
+		uni   string // Unicode class pieces
+		plain bool   // written as itself (a plain '-' can be a range operator, a plain '^' the inversion mark)
+	}
+	pieces := []piece{{"a", 'a', "", true}, {"d", 'd', "", true}, {"-", '-', "", true}, {"^", '^', "", true}, {"é", 'é', "", true}, {`\t`, '\t', "", false}, {`\]`, ']', "", false},
+		{`\\`, '\\', "", false}, {`\x2d`, '-', "", false}, {`\x5e`, '^', "", false}, {`\101`, 'A', "", false}, {`\u00e9`, 'é', "", false}, {`\pL`, 0, "L", false}, {`\p{Nd}`, 0, "Nd", false}}
+	var out []classSpelling
+	var rec func(ps []piece)
+	denote := func(ps []piece) classSpelling {
+		cs := classSpelling{ok: true}
+		for _, p := range ps {
+			cs.src += p.src
+		}
+		cs.src = "[" + cs.src + "]"
+		if len(ps) > 0 && ps[0].plain && ps[0].r == '^' {
+			cs.inverted = true
+			ps = ps[1:]
+		}
+		for i := 0; i < len(ps); {
+			p := ps[i]
+			switch {
+			case p.uni != "":
+				cs.items = append(cs.items, peg.ClassItem{Unicode: p.uni})
+				i++
+			case i+2 < len(ps) && ps[i+1].plain && ps[i+1].r == '-' && ps[i+2].uni == "":
+				if ps[i+2].r <= p.r {
+					cs.ok = false // descending or one-rune range
+				}
+				cs.items = append(cs.items, peg.ClassItem{Lo: p.r, Hi: ps[i+2].r})
+				i += 3
+			default:
+				cs.items = append(cs.items, peg.ClassItem{Lo: p.r, Hi: p.r})
+				i++
+			}
+		}
+		return cs
+	}
+	rec = func(ps []piece) {
+		out = append(out, denote(ps))
+		if len(ps) == k {
+			return
+		}
+		for _, p := range pieces {
+			rec(append(append([]piece{}, ps...), p))
+		}
+	}
+	rec(nil)
+	return out
 }
